@@ -384,3 +384,78 @@ Proof.
     rewrite nth_upd_eq by (rewrite upd_len; unfold w6, upd_proc; cbn [wprocs set]; simpl; rewrite upd_len, LEN5; exact LP).
     reflexivity.
 Qed.
+
+(* ------------------------------------------------------------------ C08: the worker's timer, C16: the splitter's order *)
+(* the first block of a machine worker (it runs in the instant in which the item was pulled): it stamps the start of
+   processing with the clock, arms ONE timer -- for exactly the delay that was drawn for this item -- and waits on it;
+   it touches no edge, no item, no trace entry *)
+Theorem worker_arms_the_drawn_delay w p :
+  ppc (me w p) = 0%nat -> 0 <= pdl (me w p) -> (p < length (wprocs w))%nat ->
+  let r := worker_block w p in let w' := fst r in
+  wedges w' = wedges w /\ witems w' = witems w /\ wlog w' = wlog w /\
+  pt0 (me w' p) = wnow w /\ ppc (me w' p) = 1%nat /\
+  exists t, snd r = YEvent t /\ t = length (evs (wk w)) /\
+    e_trig (get_ev (wk w') t) = true /\
+    In {| q_time := wnow w + pdl (me w p); q_prio := NORMAL; q_seq := seq (wk w); q_ev := t |} (queue (wk w')) /\
+    length (queue (wk w')) = S (length (queue (wk w))).
+Proof.
+  intros PC D LP. unfold worker_block. rewrite PC. cbv zeta.
+  destruct (update_state_rep_shape w (pown (me w p))) as (A1 & A2 & A3 & A4 & _).
+  assert (AK : wk (update_state_rep w (pown (me w p))) = wk w).
+  { unfold update_state_rep. destruct (nlast _); [|reflexivity]. destruct (nsrep _). destruct (count_threads _).
+    destruct (_ >? _); [unfold crashw; match goal with |- context [wcrash ?x] => destruct (wcrash x) end|]; reflexivity. }
+  set (w1 := update_state_rep w (pown (me w p))) in *. clearbody w1.
+  assert (N1 : wnow w1 = wnow w) by (unfold wnow; rewrite AK; reflexivity).
+  set (w2 := upd_proc w1 p (fun x => x <| pt0 := wnow w1 |>)).
+  assert (PD : pdl (me w2 p) = pdl (me w p) /\ pdl (me w p) <? 0 = false).
+  { split; [|apply Z.ltb_ge; exact D]. unfold w2, me, get_proc, upd_proc. cbn [wprocs set]. simpl. rewrite A4.
+    rewrite nth_upd_eq by exact LP. reflexivity. }
+  destruct PD as (PD1 & PD2).
+  unfold w_timeout. rewrite PD2. unfold timeout, new_event. cbn [fst snd].
+  assert (K2 : wk w2 = wk w) by (unfold w2; cbn [wk upd_proc set]; simpl; exact AK).
+  repeat split.
+  - cbn [wedges setpc upd_proc set]. simpl. exact A1.
+  - cbn [witems setpc upd_proc set]. simpl. exact A2.
+  - cbn [wlog setpc upd_proc set]. simpl. exact A3.
+  - unfold me, get_proc, setpc, upd_proc, w2. cbn [wprocs set]. simpl. rewrite A4.
+    rewrite nth_upd_eq by (rewrite upd_len; exact LP). cbn. rewrite nth_upd_eq by exact LP. cbn. exact N1.
+  - unfold me, get_proc, setpc, upd_proc, w2. cbn [wprocs set]. simpl. rewrite A4.
+    rewrite nth_upd_eq by (rewrite upd_len; exact LP). reflexivity.
+  - exists (length (evs (wk w))). rewrite K2. cbn [wk setpc upd_proc set]. simpl.
+    split; [reflexivity|]. split; [reflexivity|]. split; [|split].
+    + unfold get_ev, schedule, mark_trig, set_evs. cbn [evs]. rewrite nth_upd_eq by (rewrite app_length; simpl; lia).
+      reflexivity.
+    + unfold schedule, mark_trig, set_evs. cbn [queue now seq]. apply qins_in. left. unfold wnow. reflexivity.
+    + unfold schedule, mark_trig, set_evs. cbn [queue].
+      assert (forall x q, length (qins x q) = S (length q)) as QL.
+      { intros x q. induction q as [|y q IH]; simpl; auto. destruct (qlt x y); simpl; auto. }
+      apply QL.
+Qed.
+
+(* the splitter's worker hands out the head of what is left on the pallet, the pallet itself only when nothing is
+   left, and nothing after the pallet *)
+Theorem splitter_next_is_head w p n x rest :
+  pkd (me w p) = KSplitWorker -> sc_phase (me w p) = 0%nat ->
+  i_contents (get_item w (pit (me w p))) = x :: rest ->
+  sc_next w p n = sc_dispatch (upd_item w (pit (me w p)) (fun y => y <| i_contents := rest |>)) p n x 0.
+Proof. intros K PH C. unfold sc_next. rewrite K, PH, C. reflexivity. Qed.
+
+Theorem splitter_pallet_comes_last w p n :
+  pkd (me w p) = KSplitWorker -> sc_phase (me w p) = 0%nat ->
+  i_contents (get_item w (pit (me w p))) = [] ->
+  sc_next w p n = sc_dispatch w p n (pit (me w p)) 1.
+Proof. intros K PH C. unfold sc_next. rewrite K, PH, C. reflexivity. Qed.
+
+Theorem splitter_nothing_after_the_pallet w p n ph :
+  sc_phase (me w p) = S ph -> sc_next w p n = sc_release w p n.
+Proof. intros PH. unfold sc_next. rewrite PH. destruct (pkd (me w p)); reflexivity. Qed.
+
+(* a dispatched flow item is recorded as the worker's current item with its phase *)
+Theorem dispatch_records_current w p c ph :
+  (p < length (wprocs w))%nat ->
+  let w0 := upd_proc w p (fun x => x <| plst := [c; ph] |>) in
+  sc_cur (me w0 p) = c /\ sc_phase (me w0 p) = ph.
+Proof.
+  intros LP. unfold sc_cur, sc_phase, me, get_proc, upd_proc. cbn [wprocs set]. simpl.
+  rewrite nth_upd_eq by exact LP. cbn. auto.
+Qed.
